@@ -97,6 +97,29 @@
      - Legacy: CLOSED - the repaired retain on the history of F3 is now
        C04_retain_fixed_same_history (+ _outcome); the Example
        C04_example_retain_fixed is kept.
+   AUDIT ADDENDUM (end of this file, lemmas in Proofs/MoreOwned.v) - NOW COVERED:
+     - "no element has been or will later be destroyed twice" ALONG A HISTORY,
+       every environment                   C04_run_NoDup, C04_run_no_double_drop,
+                                           C04_run2_NoDup, C04_srun_NoDup
+     - key uniqueness after an INJECTED panic (all 56 constructors)
+                                           C04_step_uniq_fault, C04_run_uniq_fault,
+                                           C04_run_uniq_fault_init
+     - keeps_* lemmas used by C04_step_safe_obs, restated
+                                           C04_keeps_insert, C04_keeps_insert_key_value,
+                                           C04_keeps_checked_insert, C04_keeps_remove,
+                                           C04_keeps_remove_entry, C04_keeps_s_insert,
+                                           C04_keeps_s_replace, C04_keeps_s_retain,
+                                           C04_keeps_s_extend_loop,
+                                           C04_or_insert_with_key_spec, C04_disjoint_safe,
+                                           C04_disjoint_unchecked_safe, C04_map_eq_frame
+     - what holds of the partially built clone / collection on a panic
+                                           C04_clone_safe_acct, C04_from_iter_safe_acct,
+                                           C04_s_from_iter_safe_acct, C04_set_sub_safe_acct,
+                                           C04_replace_with_build_panic_keeps_self,
+                                           C04_step_clone_src_untouched,
+                                           C04_step_clone_panic_dst_cases,
+                                           C04_step_clone_panic_dst_untouched (+ s, from_iter,
+                                           serde variants)
    ========================================================================== *)
 Require Import Model.Base Model.Slots Model.MapOps Model.EntryOps Model.SetOps Model.Fmt Model.Exec.
 Require Import Proofs.Hoare Proofs.Inv Proofs.Safety Proofs.Safety2 Proofs.Safety3 Proofs.Spec Proofs.Owned
@@ -463,3 +486,450 @@ Example C04_example_clone_acct_panic :
   | _ => False
   end.
 Proof. vm_compute. repeat split; reflexivity. Qed.
+
+
+(* ========================================================================== *)
+(* ADDENDUM (audit closure).  New lemmas: Proofs/MoreOwned.v.
+   Vocabulary of the history theorems (mstep / mfinal, op_ins, op_outs, op_ok,
+   mouts; the Dict2 and Set variants) : see the addendum of Props/C02.v.       *)
+(* ========================================================================== *)
+Require Import Proofs.Lawful Proofs.Dict Proofs.Dict2 Proofs.SetDict Proofs.ExecUniq Proofs.FmtSerde Proofs.MoreOwned.
+
+(* -------------------------------------------------------------------------- *)
+(* "no element has been OR WILL LATER BE destroyed twice", along a whole
+   history and for EVERY environment (any number of panics, at any callback):
+   if the identities stored at the start, those of all arguments of the history,
+   those of uninvolved objects (extra) and those already destroyed are pairwise
+   distinct, then after ANY history of the dictionary operations (a panicking
+   step continues on the unwound state) no identity occurs twice among
+   stored ++ with the caller ++ extra ++ destroyed: nothing was destroyed twice
+   at any point, nothing destroyed is still stored (so no later drop can destroy
+   it again).  mfinal2: with drains, iteration, entry, extend; smfinal: Set.    *)
+Theorem C04_run_NoDup :
+  forall (K V Q T : Type) (E : env K V Q T) (debug : bool) (ops : list dop)
+    (w wf : world K V T) (extra : list N),
+  WF (self w) ->
+  Forall (op_ok E) ops ->
+  NoDup (owned E (self w) ++ flat_map (op_ins E) ops ++ extra ++ dropped (log w)) ->
+  mfinal E debug ops w = Some wf ->
+  NoDup (owned E (self wf) ++ mouts E debug ops w ++ extra ++ dropped (log wf)).
+Proof. exact (@run_NoDup). Qed.
+Print Assumptions C04_run_NoDup.
+
+Theorem C04_run_no_double_drop :
+  forall (K V Q T : Type) (E : env K V Q T) (debug : bool) (ops : list dop)
+    (w wf : world K V T),
+  WF (self w) ->
+  Forall (op_ok E) ops ->
+  NoDup (owned E (self w) ++ flat_map (op_ins E) ops ++ dropped (log w)) ->
+  mfinal E debug ops w = Some wf ->
+  NoDup (dropped (log wf)) /\
+  NoDup (owned E (self wf)) /\
+  (forall x : N,
+   In x (owned E (self wf)) -> ~ In x (dropped (log wf)) /\ ~ In x (mouts E debug ops w)) /\
+  (forall x : N, In x (mouts E debug ops w) -> ~ In x (dropped (log wf))).
+Proof. exact (@run_no_double_drop). Qed.
+Print Assumptions C04_run_no_double_drop.
+
+Theorem C04_run2_NoDup :
+  forall (K V Q T : Type) (E : env K V Q T) (debug : bool) (ops : list dop2)
+    (w wf : world K V T) (extra : list N),
+  WF (self w) ->
+  Forall (op2_ok E) ops ->
+  NoDup (owned E (self w) ++ flat_map (op2_ins E) ops ++ extra ++ dropped (log w)) ->
+  mfinal2 E debug ops w = Some wf ->
+  NoDup (owned E (self wf) ++ mouts2 E debug ops w ++ extra ++ dropped (log wf)).
+Proof. exact (@run2_NoDup). Qed.
+Print Assumptions C04_run2_NoDup.
+
+Theorem C04_srun_NoDup :
+  forall (K Q T : Type) (E : env K unit Q T) (debug : bool),
+  idV E tt = [] ->
+  forall (ops : list sop) (w wf : world K unit T) (extra : list N),
+  WF (self w) ->
+  NoDup (owned E (self w) ++ flat_map (sop_ins E) ops ++ extra ++ dropped (log w)) ->
+  smfinal E debug ops w = Some wf ->
+  NoDup (owned E (self wf) ++ souts E debug ops w ++ extra ++ dropped (log wf)).
+Proof. exact (@srun_NoDup). Qed.
+Print Assumptions C04_srun_NoDup.
+
+(* -------------------------------------------------------------------------- *)
+(* Key uniqueness AFTER AN INJECTED PANIC (ExecUniq.step_uniq needs an honest
+   script: no fault at all).  Here the script only has to be non-adversarial:
+   sc_adv sc = false, i.e. == answers truthfully WHEN IT ANSWERS; sc_fk / sc_fa
+   are arbitrary: one panic injected at any == / Clone / Drop / closure / next()
+   call.  UniqX x: in each of the four registers the keys are pairwise of
+   different class.  All 56 constructors of Exec.op are covered: every
+   comparison precedes the mutation, so a panic leaves uniqueness intact. *)
+Theorem C04_step_uniq_fault :
+  forall (debug : bool) (sc : script) (o : op) (x : xworld),
+  sc_adv sc = false ->
+  WFx x -> contract_ok debug o x -> UniqX x -> UniqX (snd (step debug sc o x)).
+Proof. exact (@step_uniq_fault). Qed.
+Print Assumptions C04_step_uniq_fault.
+
+Theorem C04_run_uniq_fault :
+  forall (debug : bool) (sc : script) (ops : list op) (x : xworld),
+  sc_adv sc = false ->
+  WFx x ->
+  UniqX x ->
+  Forall safe_op ops -> WFx (run_final debug sc ops x) /\ UniqX (run_final debug sc ops x).
+Proof. exact (@run_uniq_fault). Qed.
+Print Assumptions C04_run_uniq_fault.
+
+Theorem C04_run_uniq_fault_init :
+  forall (debug : bool) (sc : script) (ops : list op) (c0 c1 c2 c3 : N),
+  sc_adv sc = false ->
+  Forall safe_op ops ->
+  let x := run_final debug sc ops (init_world c0 c1 c2 c3) in WFx x /\ UniqX x.
+Proof. exact (@run_uniq_fault_init). Qed.
+Print Assumptions C04_run_uniq_fault_init.
+
+(* -------------------------------------------------------------------------- *)
+(* per-operation exception safety used inside C04_step_safe_obs but not
+   restated so far (Safety.keeps unfolded), EVERY environment: in both outcomes
+   the container is well-formed with the same capacity *)
+Theorem C04_keeps_insert :
+  forall (K V Q T : Type) (E : env K V Q T) (debug : bool) (k : K) (v : V) (w : world K V T),
+  WF (self w) ->
+  wp (insert E debug k v)
+    (fun _ (w' : world K V T) => WF (self w') /\ cap (self w') = cap (self w))
+    (fun w' : world K V T => WF (self w') /\ cap (self w') = cap (self w))
+    w.
+Proof. exact (@Safety3.keeps_insert). Qed.
+Print Assumptions C04_keeps_insert.
+
+Theorem C04_keeps_insert_key_value :
+  forall (K V Q T : Type) (E : env K V Q T) (debug : bool) (k : K) (v : V) (w : world K V T),
+  WF (self w) ->
+  wp (insert_key_value E debug k v)
+    (fun _ (w' : world K V T) => WF (self w') /\ cap (self w') = cap (self w))
+    (fun w' : world K V T => WF (self w') /\ cap (self w') = cap (self w))
+    w.
+Proof. exact (@keeps_insert_key_value). Qed.
+Print Assumptions C04_keeps_insert_key_value.
+
+Theorem C04_keeps_checked_insert :
+  forall (K V Q T : Type) (E : env K V Q T) (debug : bool) (k : K) (v : V) (w : world K V T),
+  WF (self w) ->
+  wp (checked_insert E debug k v)
+    (fun _ (w' : world K V T) => WF (self w') /\ cap (self w') = cap (self w))
+    (fun w' : world K V T => WF (self w') /\ cap (self w') = cap (self w))
+    w.
+Proof. exact (@keeps_checked_insert). Qed.
+Print Assumptions C04_keeps_checked_insert.
+
+Theorem C04_keeps_remove :
+  forall (K V Q T : Type) (E : env K V Q T) (debug : bool) (q : Q) (w : world K V T),
+  WF (self w) ->
+  wp (remove E debug q)
+    (fun _ (w' : world K V T) => WF (self w') /\ cap (self w') = cap (self w))
+    (fun w' : world K V T => WF (self w') /\ cap (self w') = cap (self w))
+    w.
+Proof. exact (@keeps_remove). Qed.
+Print Assumptions C04_keeps_remove.
+
+Theorem C04_keeps_remove_entry :
+  forall (K V Q T : Type) (E : env K V Q T) (debug : bool) (q : Q) (w : world K V T),
+  WF (self w) ->
+  wp (remove_entry E debug q)
+    (fun _ (w' : world K V T) => WF (self w') /\ cap (self w') = cap (self w))
+    (fun w' : world K V T => WF (self w') /\ cap (self w') = cap (self w))
+    w.
+Proof. exact (@keeps_remove_entry). Qed.
+Print Assumptions C04_keeps_remove_entry.
+
+Theorem C04_keeps_s_insert :
+  forall (K Q T : Type) (E : env K unit Q T) (debug : bool) (k : K) (w : world K unit T),
+  WF (self w) ->
+  wp (s_insert E debug k)
+    (fun _ (w' : world K unit T) => WF (self w') /\ cap (self w') = cap (self w))
+    (fun w' : world K unit T => WF (self w') /\ cap (self w') = cap (self w))
+    w.
+Proof. exact (@keeps_s_insert). Qed.
+Print Assumptions C04_keeps_s_insert.
+
+Theorem C04_keeps_s_replace :
+  forall (K Q T : Type) (E : env K unit Q T) (debug : bool) (k : K) (w : world K unit T),
+  WF (self w) ->
+  wp (s_replace E debug k)
+    (fun _ (w' : world K unit T) => WF (self w') /\ cap (self w') = cap (self w))
+    (fun w' : world K unit T => WF (self w') /\ cap (self w') = cap (self w))
+    w.
+Proof. exact (@keeps_s_replace). Qed.
+Print Assumptions C04_keeps_s_replace.
+
+Theorem C04_keeps_s_retain :
+  forall (K Q T : Type) (E : env K unit Q T) (debug : bool) (f : T -> K -> option bool * T) (w : world K unit T),
+  WF (self w) ->
+  wp (s_retain E debug f)
+    (fun _ (w' : world K unit T) => WF (self w') /\ cap (self w') = cap (self w))
+    (fun w' : world K unit T => WF (self w') /\ cap (self w') = cap (self w))
+    w.
+Proof. exact (@keeps_s_retain). Qed.
+Print Assumptions C04_keeps_s_retain.
+
+Theorem C04_keeps_s_extend_loop :
+  forall (K Q T : Type) (E : env K unit Q T) (debug : bool) (nx : T -> ans * T) (items : list K) (w : world K unit T),
+  WF (self w) ->
+  wp (s_extend_loop E debug nx items)
+    (fun _ (w' : world K unit T) => WF (self w') /\ cap (self w') = cap (self w))
+    (fun w' : world K unit T => WF (self w') /\ cap (self w') = cap (self w))
+    w.
+Proof. exact (@keeps_s_extend_loop). Qed.
+Print Assumptions C04_keeps_s_extend_loop.
+
+Theorem C04_or_insert_with_key_spec :
+  forall (K V Q T : Type) (E : env K V Q T) (debug : bool) (e : @entry K)
+         (f : K -> T -> option V * T) (w : world K V T),
+  WF (self w) ->
+  entry_ok e (self w) ->
+  wp (or_insert_with_key E debug e f)
+    (fun (i : nat) (w' : world K V T) =>
+       (WF (self w') /\ cap (self w') = cap (self w)) /\ i < len (self w'))
+    (fun w' : world K V T => WF (self w') /\ cap (self w') = cap (self w))
+    w.
+Proof. exact (@or_insert_with_key_spec). Qed.
+Print Assumptions C04_or_insert_with_key_spec.
+
+(* get_disjoint_mut / get_disjoint_unchecked_mut and PartialEq never touch the
+   container, whatever == does (lie, panic); the indices handed out are live and
+   pairwise distinct *)
+Theorem C04_disjoint_safe :
+  forall (K V Q T : Type) (E : env K V Q T) (ks : list Q) (w : world K V T),
+  WF (self w) ->
+  wp (get_disjoint_mut E ks)
+    (fun (r : list (option nat)) (w' : world K V T) =>
+     self w' = self w /\
+     length r = length ks /\
+     (forall j i : nat, nth_error r j = Some (Some i) -> i < len (self w)) /\
+     (forall j1 j2 i : nat,
+      nth_error r j1 = Some (Some i) -> nth_error r j2 = Some (Some i) -> j1 = j2))
+    (fun w' : world K V T => self w' = self w) w.
+Proof. exact (@disjoint_safe). Qed.
+Print Assumptions C04_disjoint_safe.
+
+Theorem C04_disjoint_unchecked_safe :
+  forall (K V Q T : Type) (E : env K V Q T) (ks : list Q) (w : world K V T),
+  WF (self w) ->
+  wp (get_disjoint_unchecked_mut E ks)
+    (fun (r : list (option nat)) (w' : world K V T) =>
+     self w' = self w /\
+     length r = length ks /\
+     (forall j i : nat, nth_error r j = Some (Some i) -> i < len (self w)) /\
+     (forall j1 j2 i : nat,
+      nth_error r j1 = Some (Some i) -> nth_error r j2 = Some (Some i) -> j1 = j2))
+    (fun w' : world K V T => self w' = self w) w.
+Proof. exact (@disjoint_unchecked_safe). Qed.
+Print Assumptions C04_disjoint_unchecked_safe.
+
+Theorem C04_map_eq_frame :
+  forall (K V Q T : Type) (E : env K V Q T) (a b : map K V) (w : world K V T),
+  WF a ->
+  WF b ->
+  wp (map_eq E a b) (fun (_ : bool) (w' : world K V T) => self w' = self w)
+    (fun w' : world K V T => self w' = self w) w.
+Proof. exact (@map_eq_frame). Qed.
+Print Assumptions C04_map_eq_frame.
+
+(* -------------------------------------------------------------------------- *)
+(* C04_clone_safe, C04_from_iter_safe, C04_s_from_iter_safe, C04_set_sub_safe
+   have panic postcondition True.  What holds of the partially built container
+   when Clone / the source iterator / == / Drop panics midway: it has been
+   dropped by unwinding (finally_drop), self w' is what is left in its dead
+   storage; the elements already cloned / stored were destroyed exactly once (d,
+   appended to the destroyed list) or leaked (lost; only when a Drop panicked as
+   well), none twice.  The source is a parameter of the computation (a shared
+   borrow): it cannot change.  inv_post w w' := WF (self w') /\ cap (self w') =
+   cap (self w). *)
+Theorem C04_clone_safe_acct :
+  forall (K V Q T : Type) (E : env K V Q T) (src : map K V) (w : world K V T),
+  WF src ->
+  WF (self w) ->
+  len (self w) = 0 ->
+  cap (self w) = cap src ->
+  let made := flat_map (ids_pair E) (clone_made E src (len src) 0 (cb w)) in
+  wp (clone_from_src E src)
+    (fun (_ : unit) (w' : world K V T) =>
+     (inv_post w w' /\ len (self w') = len src) /\
+     length (clone_made E src (len src) 0 (cb w)) = len src /\
+     dropped (log w') = dropped (log w) /\
+     (exists lost : list N,
+        Permutation (owned E (self w') ++ lost) (owned E (self w) ++ made) /\
+        (Tidy (self w) -> lost = [] /\ Tidy (self w'))))
+    (fun w' : world K V T =>
+     exists d lost : list N,
+       dropped (log w') = dropped (log w) ++ d /\
+       Permutation (owned E (self w') ++ d ++ lost) (owned E (self w) ++ made) /\
+       (Tidy (self w) -> lost = [])) w.
+Proof. exact (@clone_safe_acct). Qed.
+Print Assumptions C04_clone_safe_acct.
+
+Theorem C04_from_iter_safe_acct :
+  forall (K V Q T : Type) (E : env K V Q T) (debug : bool) (nx : T -> ans * T)
+    (items : list (K * V)) (w : world K V T),
+  WF (self w) ->
+  wp (from_iter E debug nx items)
+    (fun (_ : unit) (w' : world K V T) =>
+     inv_post w w' /\
+     (exists lost : list N,
+        acct E w w' (flat_map (ids_pair E) items) [] lost /\
+        (Tidy (self w) -> lost = [] /\ Tidy (self w'))))
+    (fun w' : world K V T =>
+     exists lost : list N, acct E w w' (flat_map (ids_pair E) items) [] lost) w.
+Proof. exact (@from_iter_safe_acct). Qed.
+Print Assumptions C04_from_iter_safe_acct.
+
+Theorem C04_s_from_iter_safe_acct :
+  forall (K Q T : Type) (E : env K unit Q T) (debug : bool),
+  idV E tt = [] ->
+  forall (nx : T -> ans * T) (items : list K) (w : world K unit T),
+  WF (self w) ->
+  wp (s_from_iter E debug nx items)
+    (fun (_ : unit) (w' : world K unit T) =>
+     inv_post w w' /\
+     (exists lost : list N,
+        acct E w w' (flat_map (fun k : K => ids_pair E (k, tt)) items) [] lost /\
+        (Tidy (self w) -> lost = [] /\ Tidy (self w'))))
+    (fun w' : world K unit T =>
+     exists lost : list N,
+       acct E w w' (flat_map (fun k : K => ids_pair E (k, tt)) items) [] lost) w.
+Proof. exact (@s_from_iter_safe_acct). Qed.
+Print Assumptions C04_s_from_iter_safe_acct.
+
+Theorem C04_set_sub_safe_acct :
+  forall (K Q T : Type) (E : env K unit Q T) (debug : bool),
+  idV E tt = [] ->
+  forall (a b : map K unit) (w : world K unit T),
+  WF a ->
+  WF b ->
+  WF (self w) ->
+  wp (set_sub E debug a b)
+    (fun (_ : unit) (w' : world K unit T) =>
+     inv_post w w' /\
+     (exists made : list K,
+        Forall (cloned_from E a) made /\
+        (exists lost : list N,
+           acct E w w' (flat_map (fun k : K => ids_pair E (k, tt)) made) [] lost /\
+           (Tidy (self w) -> lost = [] /\ Tidy (self w')))))
+    (fun w' : world K unit T =>
+     exists made : list K,
+       Forall (cloned_from E a) made /\
+       (exists lost : list N,
+          acct E w w' (flat_map (fun k : K => ids_pair E (k, tt)) made) [] lost)) w.
+Proof. exact (@set_sub_safe_acct). Qed.
+Print Assumptions C04_set_sub_safe_acct.
+
+(* at operation level (Exec.replace_with: build in a local, install, drop the
+   old value): if the BUILD panics the register keeps its old contents ... *)
+Theorem C04_replace_with_build_panic_keeps_self :
+  forall (V : Type) (E : env key V query cstate) (build : M key V cstate unit) 
+    (body : list N) (w w1 : world key V cstate),
+  build (with_self w (new_map (cap (self w)))) = Panic w1 ->
+  replace_with E build body w = Panic (with_self w1 (self w)).
+Proof. exact (@replace_with_build_panic_keeps_self). Qed.
+Print Assumptions C04_replace_with_build_panic_keeps_self.
+
+(* ... and at interpreter level, for every script: the source register of
+   clone / clone_from is untouched; when the call unwinds (observation starts
+   with 2) the destination register is untouched too - unless the panic came
+   from the Drop of an OLD destination element after the new clone was
+   installed (second disjunct; excluded when the script injects no Drop fault).
+   The naive claim "panic => destination untouched" is FALSE:
+   C04_example_clone_from_drop_panic. *)
+Theorem C04_step_clone_src_untouched :
+  forall (debug : bool) (sc : script) (r r' : N) (x : xworld),
+  (r < 2)%N ->
+  (r' < 2)%N ->
+  r <> r' ->
+  get_m r (snd (step debug sc (OClone r r') x)) = get_m r x /\
+  get_m r (snd (step debug sc (OCloneFrom r r') x)) = get_m r x.
+Proof. exact (@cf_step_clone_src_untouched). Qed.
+Print Assumptions C04_step_clone_src_untouched.
+
+Theorem C04_step_clone_panic_dst_cases :
+  forall (debug : bool) (sc : script) (r r' : N) (x : xworld) (o : op),
+  o = OClone r r' \/ o = OCloneFrom r r' ->
+  hd 0%N (fst (step debug sc o x)) = 2%N ->
+  get_m r' (snd (step debug sc o x)) = get_m r' x \/
+  (exists w1 w2 : mworld,
+     clone_from_src (env_map sc) (get_m r x)
+       (with_self (w_init (xcb x) (get_m r' x)) (new_map (cap (get_m r' x)))) = 
+     Ok tt w1 /\
+     drop_map (env_map sc) (with_self w1 (get_m r' x)) = Panic w2 /\
+     get_m r' (snd (step debug sc o x)) = self w1).
+Proof. exact (@cf_step_clone_panic_dst_cases). Qed.
+Print Assumptions C04_step_clone_panic_dst_cases.
+
+Theorem C04_step_clone_panic_dst_untouched :
+  forall (debug : bool) (sc : script) (r r' : N) (x : xworld) (o : op),
+  o = OClone r r' \/ o = OCloneFrom r r' ->
+  sc_fk sc <> 3%N ->
+  hd 0%N (fst (step debug sc o x)) = 2%N -> get_m r' (snd (step debug sc o x)) = get_m r' x.
+Proof. exact (@cf_step_clone_panic_dst_untouched). Qed.
+Print Assumptions C04_step_clone_panic_dst_untouched.
+
+Theorem C04_step_sclone_src_untouched :
+  forall (debug : bool) (sc : script) (r r' : N) (x : xworld),
+  s_ok r = true ->
+  s_ok r' = true ->
+  r <> r' ->
+  get_s r (snd (step debug sc (SClone r r') x)) = get_s r x /\
+  get_s r (snd (step debug sc (SCloneFrom r r') x)) = get_s r x.
+Proof. exact (@cf_step_sclone_src_untouched). Qed.
+Print Assumptions C04_step_sclone_src_untouched.
+
+Theorem C04_step_sclone_panic_dst_untouched :
+  forall (debug : bool) (sc : script) (r r' : N) (x : xworld) (o : op),
+  o = SClone r r' \/ o = SCloneFrom r r' ->
+  sc_fk sc <> 3%N ->
+  hd 0%N (fst (step debug sc o x)) = 2%N -> get_s r' (snd (step debug sc o x)) = get_s r' x.
+Proof. exact (@cf_step_sclone_panic_dst_untouched). Qed.
+Print Assumptions C04_step_sclone_panic_dst_untouched.
+
+Theorem C04_step_from_iter_panic_untouched :
+  forall (debug : bool) (sc : script) (r : N) (arr : bool) (items : list (key * vobj))
+    (x : xworld),
+  sc_fk sc <> 3%N ->
+  hd 0%N (fst (step debug sc (OFromIter r arr items) x)) = 2%N ->
+  get_m r (snd (step debug sc (OFromIter r arr items) x)) = get_m r x.
+Proof. exact (@cf_step_from_iter_panic_untouched). Qed.
+Print Assumptions C04_step_from_iter_panic_untouched.
+
+Theorem C04_step_serde_panic_untouched :
+  forall (debug : bool) (sc : script) (r r' : N) (x : xworld),
+  sc_fk sc <> 3%N ->
+  hd 0%N (fst (step debug sc (OSerde r r') x)) = 2%N ->
+  get_m r' (snd (step debug sc (OSerde r r') x)) = get_m r' x.
+Proof. exact (@cf_step_serde_panic_untouched). Qed.
+Print Assumptions C04_step_serde_panic_untouched.
+
+(* -------------------------------------------------------------------------- *)
+(* non-vacuity                                                                *)
+(* the hypotheses of C04_step_uniq_fault: a script that is not adversarial but
+   injects a Drop panic (object id 1), a well-formed world with unique keys *)
+Example C04_example_uniq_fault_hyps :
+  sc_adv (sc_drop 1) = false /\ sc_fk (sc_drop 1) = 3%N /\
+  WFx (init_world 2 2 0 0) /\ UniqX (init_world 2 2 0 0).
+Proof. split; [reflexivity|]. split; [reflexivity|]. split; [exact (init_WFx 2 2 0 0) | exact (init_UniqX 2 2 0 0)]. Qed.
+
+(* clone_from where the Clone of the first value panics (script sc_clone 1):
+   the call unwinds and the destination register 1 is untouched *)
+Example C04_example_clone_from_clone_panic :
+  let x := run_final false (sc_clone 1)
+             [OInsert 0 (mk 1 5) (mv 2 7); OInsert 1 (mk 5 6) (mv 6 9)] (init_world 2 2 0 0) in
+  hd 0%N (fst (step false (sc_clone 1) (OCloneFrom 0 1) x)) = 2%N /\
+  get_m 1 (snd (step false (sc_clone 1) (OCloneFrom 0 1) x)) = get_m 1 x.
+Proof. vm_compute. split; reflexivity. Qed.
+
+(* clone_from where the Drop of the OLD destination key (id 5) panics: the call
+   unwinds AFTER the new clone was installed: register 1 holds the complete
+   clone (ids 100000, 100001), the source register 0 is untouched *)
+Example C04_example_clone_from_drop_panic :
+  let x := run_final false (sc_drop 5)
+             [OInsert 0 (mk 1 5) (mv 2 7); OInsert 1 (mk 5 6) (mv 6 9)] (init_world 2 2 0 0) in
+  hd 0%N (fst (step false (sc_drop 5) (OCloneFrom 0 1) x)) = 2%N /\
+  Spec.elems (get_m 1 (snd (step false (sc_drop 5) (OCloneFrom 0 1) x))) = [(mk 100000 5, mv 100001 7)] /\
+  get_m 1 (snd (step false (sc_drop 5) (OCloneFrom 0 1) x)) <> get_m 1 x /\
+  get_m 0 (snd (step false (sc_drop 5) (OCloneFrom 0 1) x)) = get_m 0 x.
+Proof. vm_compute. repeat split; try reflexivity. discriminate. Qed.
